@@ -70,8 +70,22 @@ class Filter:
 
 @dataclass
 class MapComp:
-    """[f(x) for x in xs] over a concrete-length sequence: evaluated element-wise"""
-    pass
+    """[f(x) for x in xs] over a symbolic list == fn(xs, args...), fn = map of `elem` (checked: fn(cons(c, r)) == cons(elem, fn(r)))"""
+    fn: str = ""
+    elem: str = ""                # L1 expression over `c` (and code variables) for one element of the result
+    args: dict = field(default_factory=dict)
+
+
+@dataclass
+class FindFirst:
+    """`for i, x in enumerate(xs): if P(x): var = i; break`: var is the index of the first element satisfying `pred`
+    (None when there is none).  The engine keeps the index symbolic and reads/writes `xs[var]` through first/replace functions."""
+    pred: str                     # L1 Bool over `c`
+    var: str
+    has: str                      # L1 Bool function name over the list: some element satisfies pred
+    first: str                    # L1 function name: the first such element
+    replace: str                  # L1 function name (list, value): the list with the first such element replaced
+    first_sat_lemma: str = ""     # imported Lean lemma `has(l) -> pred(first(l))`, instantiated when the element is read
 
 
 @dataclass
@@ -91,6 +105,7 @@ class Contract:
     note: str = ""
     props: list = field(default_factory=list) # properties this contract serves
     harness: Optional[object] = None          # optional callable(interp) -> custom verification
+    pure: bool = False                        # harness contracts: add the F:<fn>:reads-only obligation (no write outside the activation)
     inline: bool = False                      # callers execute the body instead of using the contract
     lemmas: list = field(default_factory=list)  # [(lemma name, {lemma var: contract param})] imported Lean theorems
     post: dict = field(default_factory=dict)    # modified parameter -> L1 expression for its state at normal return
